@@ -8,6 +8,12 @@ import DoltVerif.Model.MutableMap
 import DoltVerif.Lemmas.Mutate
 import DoltVerif.Lemmas.Search
 import DoltVerif.Lemmas.TreeWF
+import DoltVerif.Lemmas.BuildWF
+import DoltVerif.Lemmas.Window
+import DoltVerif.Lemmas.MutMapRefine
+import DoltVerif.Lemmas.MutContent
+import DoltVerif.Lemmas.OrdinalPath
+import DoltVerif.Lemmas.CursorOrder
 namespace DoltVerif.C11
 open DoltVerif.Prolly DoltVerif.SortedDict
 
@@ -228,6 +234,224 @@ theorem ordinal_refines_leaf {cmp : κ → κ → Ordering} (hc : TotalPreorder 
 /-- non-vacuity: numbers under `compare` -/
 example : (⟨0, [(1, "a"), (3, "b"), (7, "c")]⟩ : Tree Nat String).flatten = [(1, "a"), (3, "b"), (7, "c")] := rfl
 
+/-! ### range iteration -/
+
+/-- **a cursor positioned by any monotone key predicate lands on the predicate's boundary** (the
+generalisation of `ordinal_refines` that covers `rangeStartSearchFn` / `rangeStopSearchFn`):
+its ordinal is the number of entries whose key does not yet satisfy the predicate. -/
+theorem seek_ordinal_refines [Inhabited κ] {cmp : κ → κ → Ordering} (hc : TotalPreorder cmp) (t : Tree κ ν)
+    (h : WF cmp t) (hne : t.height = 0 ∨ t.root ≠ []) (p : κ → Bool) (hp : Mono cmp p) :
+    t.seekOrdinal (psearch p) = some (rankP p t.flatten) := by
+  have : t.seekOrdinal (psearch p) = ordViaP p t.height t.root := rfl
+  rw [this, ordViaP_eq_ordAtP]
+  exact ordAtP_refines hc hp t.height t.root h.node h.sorted hne
+
+/-- `compareCursors` agrees with the ordinals of the two cursors, and a non-empty iterator starts
+on an item.  True for two cursors obtained by searches in a well-formed tree (not proved here);
+false for `newCursorAtKey` past the last key against `newCursorPastEnd` — known finding
+`prollymap/iter-key-range/start-past-last-key-open-stop`. -/
+def CursorsConsistent (t : Tree κ ν) (lo hi : List Nat) : Prop :=
+  (cmpPath lo hi ≠ .lt → ∀ a b, pathOrdinal t.height t.root lo = some a → pathOrdinal t.height t.root hi = some b → b ≤ a)
+  ∧ (cmpPath lo hi = .lt → (pathItem t.height t.root lo).isSome = true)
+
+/-- **`iterRange_refines_partial`**: `Map.IterRange(rng)` yields exactly the entries whose key
+`Matches` the range, in order — for every bound kind, including empty and inverted ranges (then
+`[]`) — given that the range's start/stop predicates are monotone along the key order (true for
+lexicographic tuple comparators, C15) and the two cursors are consistent (`CursorsConsistent`). -/
+theorem iterRange_refines_partial [Inhabited κ] {cmp : κ → κ → Ordering} (hc : TotalPreorder cmp) (t : Tree κ ν)
+    (h : WF cmp t) (hne : t.height = 0 ∨ t.root ≠ []) (fcmp : FieldCmp κ β) (r : List (RangeField β))
+    (hok : ∀ f ∈ r, FieldOk fcmp f)
+    (hLo : Mono cmp (fun k => aboveStart fcmp k 0 r)) (hHi : Mono cmp (fun k => !belowStop fcmp k 0 r))
+    (lo hi : List Nat)
+    (hlo : seekPath (rangeStartSearch fcmp r) t.height t.root = some lo)
+    (hhi : seekPath (rangeStopSearch fcmp r) t.height t.root = some hi)
+    (hcur : CursorsConsistent t lo hi) :
+    t.iterRange fcmp r = some (t.flatten.filter (fun kv => rangeMatches fcmp kv.1 0 r)) := by
+  have hstart : rangeStartSearch fcmp r = psearch (fun k => aboveStart fcmp k 0 r) := rfl
+  have hstop : rangeStopSearch fcmp r = psearch (fun k => !belowStop fcmp k 0 r) := rfl
+  have ha := seek_ordinal_refines hc t h hne _ hLo
+  have hb := seek_ordinal_refines hc t h hne _ hHi
+  unfold Tree.seekOrdinal at ha hb
+  rw [← hstart, hlo] at ha
+  rw [← hstop, hhi] at hb
+  simp only at ha hb
+  have hwin := window_filter (pLo := fun k => aboveStart fcmp k 0 r) hHi t.flatten h.sorted
+    (fun kv => rangeMatches fcmp kv.1 0 r)
+    (fun x hx => by
+      obtain ⟨h1, h2⟩ := range_predicates_consistent fcmp x.1 r 0 hok hx
+      exact ⟨h1, by simp [h2]⟩)
+  unfold Tree.iterRange
+  rw [hlo, hhi]
+  simp only
+  unfold Tree.iterPaths
+  by_cases hcmp : cmpPath lo hi = .lt
+  · have hitem := hcur.2 hcmp
+    obtain ⟨kv, hkv⟩ := Option.isSome_iff_exists.mp hitem
+    simp only [hcmp, bne_self_eq_false, Bool.false_eq_true, if_false, hkv, ha, hb, Option.map_some]
+    congr 1
+  · have hle := hcur.1 hcmp _ _ ha hb
+    have hne' : (cmpPath lo hi != .lt) = true := by simpa using hcmp
+    simp only [hne', if_true, Option.map_some, List.filter_nil]
+    have : ¬ (rankP (fun k => aboveStart fcmp k 0 r) t.flatten < rankP (fun k => !belowStop fcmp k 0 r) t.flatten) := by
+      omega
+    simp only [this, if_false, List.filter_nil] at hwin
+    rw [← hwin]
+
+/-- two cursors positioned by monotone-predicate searches in a well-formed map are consistent -/
+theorem search_cursors_consistent [Inhabited κ] {cmp : κ → κ → Ordering} (hc : TotalPreorder cmp) (t : Tree κ ν)
+    (h : WF cmp t) (hne : t.height = 0 ∨ t.root ≠ []) {pLo pHi : κ → Bool} (hLo : Mono cmp pLo) (hHi : Mono cmp pHi)
+    (lo hi : List Nat) (hlo : seekPath (psearch pLo) t.height t.root = some lo)
+    (hhi : seekPath (psearch pHi) t.height t.root = some hi) : CursorsConsistent t lo hi :=
+  seek_cursors_consistent hc hLo hHi t.height t.root h.node h.sorted hne lo hi hlo hhi
+
+/-- **`iterRange_refines`**: on every well-formed map `Map.IterRange(rng)` yields exactly the
+entries whose key `Matches` the range, in key order — for every bound kind (inclusive, exclusive,
+unbounded, equal bounds), including empty and inverted ranges (`[]`) — provided the range's
+start/stop predicates are monotone along the key order (true for lexicographic tuple comparators;
+C15).  `compareCursors` and the iterator's first dereference are covered by
+`search_cursors_consistent`. -/
+theorem iterRange_refines [Inhabited κ] {cmp : κ → κ → Ordering} (hc : TotalPreorder cmp) (t : Tree κ ν)
+    (h : WF cmp t) (hne : t.height = 0 ∨ t.root ≠ []) (fcmp : FieldCmp κ β) (r : List (RangeField β))
+    (hok : ∀ f ∈ r, FieldOk fcmp f)
+    (hLo : Mono cmp (fun k => aboveStart fcmp k 0 r)) (hHi : Mono cmp (fun k => !belowStop fcmp k 0 r)) :
+    t.iterRange fcmp r = some (t.flatten.filter (fun kv => rangeMatches fcmp kv.1 0 r)) := by
+  have ha := seek_ordinal_refines hc t h hne _ hLo
+  have hb := seek_ordinal_refines hc t h hne _ hHi
+  unfold Tree.seekOrdinal at ha hb
+  cases hlo : seekPath (psearch (fun k => aboveStart fcmp k 0 r)) t.height t.root with
+  | none => rw [hlo] at ha; cases ha
+  | some lo =>
+    cases hhi : seekPath (psearch (fun k => !belowStop fcmp k 0 r)) t.height t.root with
+    | none => rw [hhi] at hb; cases hb
+    | some hi =>
+      exact iterRange_refines_partial hc t h hne fcmp r hok hLo hHi lo hi hlo hhi
+        (search_cursors_consistent hc t h hne hLo hHi lo hi hlo hhi)
+
+theorem rankP_searchForKey (cmp : κ → κ → Ordering) (k : κ) (l : List (κ × ν)) :
+    rankP (fun x => cmp k x != .gt) l = rank cmp l k := by
+  unfold rankP rank
+  have : (fun kv : κ × ν => !(cmp k kv.1 != .gt)) = (fun kv => cmp k kv.1 == .gt) := by
+    funext kv; cases cmp k kv.1 <;> rfl
+  rw [this]
+
+/-- **`IterKeyRange(start, stop)` with both bounds refines the dictionary**: the entries from the
+first key ≥ `start` up to (not including) the first key ≥ `stop`; `[]` when the range is empty or
+inverted. -/
+theorem iterKeyRange_refines [Inhabited κ] {cmp : κ → κ → Ordering} (hc : TotalPreorder cmp) (t : Tree κ ν)
+    (h : WF cmp t) (hne : t.height = 0 ∨ t.root ≠ []) (a b : κ) :
+    t.iterKeyRange cmp (some a) (some b) = some (t.slice (rank cmp t.flatten a) (rank cmp t.flatten b)) := by
+  have hLo := mono_searchForKey hc a
+  have hHi := mono_searchForKey hc b
+  have ha := seek_ordinal_refines hc t h hne _ hLo
+  have hb := seek_ordinal_refines hc t h hne _ hHi
+  rw [rankP_searchForKey] at ha hb
+  unfold Tree.seekOrdinal at ha hb
+  rw [← searchForKey_eq_psearch] at ha hb
+  unfold Tree.iterKeyRange Tree.keyRangePaths Tree.atKeyPath
+  cases hlo : seekPath (searchForKey cmp a) t.height t.root with
+  | none => rw [hlo] at ha; cases ha
+  | some lo =>
+    cases hhi : seekPath (searchForKey cmp b) t.height t.root with
+    | none => rw [hhi] at hb; cases hb
+    | some hi =>
+      rw [hlo] at ha; rw [hhi] at hb
+      simp only at ha hb
+      have hcur := search_cursors_consistent hc t h hne hLo hHi lo hi
+        (by rw [← searchForKey_eq_psearch]; exact hlo) (by rw [← searchForKey_eq_psearch]; exact hhi)
+      simp only [bind, Option.bind, pure, hlo, hhi]
+      unfold Tree.iterPaths
+      by_cases hcmp : cmpPath lo hi = .lt
+      · obtain ⟨kv, hkv⟩ := Option.isSome_iff_exists.mp (hcur.2 hcmp)
+        simp only [hcmp, bne_self_eq_false, Bool.false_eq_true, if_false, hkv, ha, hb]
+      · have hle := hcur.1 hcmp _ _ ha hb
+        have hne' : (cmpPath lo hi != .lt) = true := by simpa using hcmp
+        simp only [hne', if_true, Option.some.injEq]
+        unfold Tree.slice
+        have : ¬ (rank cmp t.flatten a < rank cmp t.flatten b) := by omega
+        simp [this]
+
+/-- **`IterOrdinalRange(start, stop)` refines the dictionary**: for `start < stop ≤ Count` it
+yields exactly the entries at positions `start … stop-1` (cursor at ordinal `start`, stop cursor at
+ordinal `stop`, `newCursorPastEnd` when `stop = Count`); the degenerate and error cases are as
+the code has them (`stop = start` ⇒ empty, `stop < start` ⇒ invalid bounds, `stop > Count` ⇒ out
+of bounds). -/
+theorem iterOrdinalRange_refines [Inhabited κ] {cmp : κ → κ → Ordering} (t : Tree κ ν) (h : WF cmp t)
+    (hne : t.height = 0 ∨ t.root ≠ []) (start stop : Nat) :
+    t.iterOrdinalRange start stop =
+      if stop = start then .ok []
+      else if stop < start then .error .invalidBounds
+      else if stop > t.flatten.length then .error .outOfBounds
+      else .ok ((t.flatten.drop start).take (stop - start)) := by
+  have hcount : t.count = t.flatten.length := treeCount_eq_length t.height t.root h.node
+  unfold Tree.iterOrdinalRange
+  by_cases h1 : stop = start
+  · simp [h1]
+  · by_cases h2 : stop < start
+    · simp [h1, h2]
+    · by_cases h3 : stop > t.flatten.length
+      · simp [h1, h2, h3, hcount]
+      · have hlt : start < stop := by omega
+        have hstart : start < t.flatten.length := by omega
+        simp only [h1, h2, hcount, h3, if_false]
+        obtain ⟨lo, hlo1, hlo2, hlo3⟩ := ordinalPath_spec t.height t.root start h.node hstart
+        have hloAt : t.atOrdinalPath start = some lo := by
+          unfold Tree.atOrdinalPath
+          have : ¬ (start ≥ t.count) := by rw [hcount]; omega
+          simp only [this, if_false]; exact hlo1
+        have hitem : ∃ kv, pathItem t.height t.root lo = some kv := by
+          rw [hlo3]; exact ⟨_, List.getElem?_eq_getElem hstart⟩
+        obtain ⟨kv, hkv⟩ := hitem
+        have hhi : ∃ hi, t.atOrdinalPath stop = some hi ∧ pathOrdinal t.height t.root hi = some stop := by
+          unfold Tree.atOrdinalPath
+          by_cases hge : stop ≥ t.count
+          · have hs : stop = t.flatten.length := by rw [hcount] at hge; omega
+            simp only [hge, if_true]
+            exact ⟨_, rfl, by rw [pastEndPath_ordinal t.height t.root h.node hne, hs]; rfl⟩
+          · simp only [hge, if_false]
+            have hstop : stop < t.flatten.length := by rw [hcount] at hge; omega
+            obtain ⟨hi, hh1, hh2, _⟩ := ordinalPath_spec t.height t.root stop h.node hstop
+            exact ⟨hi, hh1, hh2⟩
+        obtain ⟨hi, hhi1, hhi2⟩ := hhi
+        simp only [hloAt, hhi1, hkv, hlo2, hhi2, Tree.slice, hlt, if_true]
+
+/-! ### flushing: `ApplyMutations` keeps the map a well-formed sorted dictionary -/
+
+/-- **a bulk-built map is a well-formed tree holding exactly its content** -/
+theorem build_wf {σ : Type} [Inhabited κ] {cmp : κ → κ → Ordering} (C : Cfg σ κ ν) (X : List (κ × ν)) (t : Tree κ ν)
+    (hsorted : Sorted cmp X) (hok : ∀ n, (C n).chunkOk (levelItems C n X) = true) (hb : build C X = .ok t) :
+    WF cmp t ∧ t.flatten = X := by
+  obtain ⟨hfl, hwf⟩ := Prolly.build_wf C X t hok hb
+  exact ⟨⟨hwf, by rw [hfl]; exact hsorted⟩, hfl⟩
+
+/-- **`applyMutations_wf`**: flushing a sorted edit batch into a (canonical, NoOverflowBoundary)
+map gives a well-formed tree that holds exactly `applyEdits content batch` — so every read
+refinement above (`get_refines`, `ordinal_refines`, …) applies to the flushed map again.  Same
+hypotheses and success-path form as `C12.mutate_canonical_partial`, on which it rests. -/
+theorem applyMutations_wf {σ : Type} [Inhabited κ] [BEq κ] [BEq ν] [LawfulBEq κ] [LawfulBEq ν]
+    {C : Cfg σ κ ν} {cmp : κ → κ → Ordering} {X : List (κ × ν)} {es : Edits κ ν}
+    (H : MutHyp C cmp X es) (hs : SingleOk C)
+    (hok' : ∀ n, (C n).chunkOk (levelItems C n (applyEdits cmp X es)) = true)
+    (t t1 t2 : Tree κ ν) (hb : build C X = .ok t)
+    (h1 : applyMutations C cmp t es = .ok t1) (h2 : build C (applyEdits cmp X es) = .ok t2) :
+    WF cmp t1 ∧ t1.flatten = applyEdits cmp X es := by
+  have heq := mutate_canonical_core H hs hok' t t1 t2 hb h1 h2
+  rw [heq]
+  exact build_wf C _ t2 (applyEdits_sorted H.cmp_ok es X H.sorted H.edits_sorted) hok' h2
+
+/-- **`applyMutations_wf` without any assumption on how the map was built**: flushing a sorted
+batch into ANY well-formed map (stored keys/counts right, children non-empty, content sorted, no
+empty internal root) gives — when `append` does not panic — a well-formed map that holds exactly
+`applyEdits content batch`.  No canonicity, no NoOverflowBoundary: the content is right even in the
+giant-item shapes where the tree shape is history dependent (C12's known finding). -/
+theorem applyMutations_wf_any {σ : Type} [Inhabited κ] [BEq κ] [BEq ν] [LawfulBEq κ] [LawfulBEq ν]
+    (C : Cfg σ κ ν) {cmp : κ → κ → Ordering} (hc : TotalPreorder cmp) (t : Tree κ ν) (h : WF cmp t)
+    (hne : t.height = 0 ∨ t.root ≠ []) (es : Edits κ ν) (hes : es.Pairwise (fun a b => cmp a.1 b.1 = .lt))
+    (t1 : Tree κ ν) (h1 : applyMutations C cmp t es = .ok t1) :
+    WF cmp t1 ∧ t1.flatten = applyEdits cmp t.flatten es ∧ (t1.height = 0 ∨ t1.root ≠ []) := by
+  obtain ⟨hfl, hwf⟩ := applyMutations_content_wf C hc t h.node hne h.sorted es hes t1 h1
+  exact ⟨⟨hwf, by rw [hfl]; exact applyEdits_sorted hc es _ h.sorted hes⟩, hfl,
+    applyMutations_shape C hc t h.node hne h.sorted es hes t1 h1⟩
+
 /-! ### the pending-edit list (skip.List with its checkpoint) -/
 
 /-- **Revert restores the pending edits of the checkpoint**: whatever is put or deleted after
@@ -297,6 +521,91 @@ theorem witnessA : run 0 opsA = some [(1, 10)] ∧ SortedDict.run compare [] ops
 def opsB : List (MOp Nat Nat) := [.put 1 10, .checkpoint, .put 2 20, .put 3 30, .revert, .put 4 40, .revert]
 theorem witnessB : run 2 opsB = some [(1, 10), (4, 40)] ∧ SortedDict.run compare [] opsB = [(1, 10)] := by decide
 end Witness
+
+/-- **`mutable_refines_partial`**: for every flush threshold `maxPending` and every sequence of
+puts, deletes, checkpoints and reverts that avoids the two shapes of the known findings
+(`SafeRun`: no checkpoint of an empty pending list; no revert before a checkpoint or on a pending
+list shared with the stash), the mutable map presents exactly the sorted dictionary — whatever
+mix of buffered and flushed edits the threshold forces, including flushes between a checkpoint
+and its revert (the stash path).  `FlushRefines C cmp P`: each flush of a tree satisfying the
+tree invariant `P` yields a tree that holds the edited content and satisfies `P` again
+(`applyMutations_wf` is this statement for `P` = bulk-built + NoOverflowBoundary, per flush). -/
+theorem mutable_refines_partial {σ : Type} [BEq κ] [BEq ν] [Inhabited κ] {C : Cfg σ κ ν} {cmp : κ → κ → Ordering}
+    {P : Tree κ ν → Prop} (hc : TotalPreorder cmp) (hf : FlushRefines C cmp P) (base : List (κ × ν))
+    (hs : Sorted cmp base) (t : Tree κ ν) (hP : P t) (ht : t.flatten = base) (maxPending : Nat)
+    (ops : List (MOp κ ν)) (m' : MutMap κ ν)
+    (hsafe : SafeRun C cmp { tree := t, maxPending := maxPending } false ops)
+    (hrun : MutMap.run C cmp { tree := t, maxPending := maxPending } ops = .ok m') :
+    m'.content cmp = SortedDict.run cmp base ops := by
+  have hinit : MInv cmp P ({ tree := t, maxPending := maxPending } : MutMap κ ν) ⟨base, base⟩ false := {
+    goodTree := hP
+    sortedTree := by rw [ht]; exact hs
+    cur := by show applyEdits cmp t.flatten [] = base; exact ht
+    cpLe := Nat.le_refl _
+    aliasCp := fun ha => by cases ha
+    unseen := fun _ => ⟨rfl, rfl, rfl⟩
+    stashOk := fun s hs' _ => by cases hs'
+    liveOk := fun hseen _ => by cases hseen }
+  exact mutable_run_refines hc hf ops _ m' _ false hinit hsafe hrun
+
+/-- the tree invariant every flush preserves -/
+def GoodTree [Inhabited κ] (cmp : κ → κ → Ordering) (t : Tree κ ν) : Prop :=
+  WF cmp t ∧ (t.height = 0 ∨ t.root ≠ [])
+
+theorem flushRefines_wf {σ : Type} [Inhabited κ] [BEq κ] [BEq ν] [LawfulBEq κ] [LawfulBEq ν]
+    (C : Cfg σ κ ν) {cmp : κ → κ → Ordering} (hc : TotalPreorder cmp) : FlushRefines C cmp (GoodTree cmp) := by
+  intro tr t' es hP _ hes hap
+  obtain ⟨h1, h2, h3⟩ := applyMutations_wf_any C hc tr hP.1 hP.2 es hes t' hap
+  exact ⟨h2, h1, h3⟩
+
+/-- **`mutable_refines_safe`**: `mutable_refines_partial` with the flush obligation discharged —
+for every well-formed starting map, every flush threshold and every operation sequence that
+avoids the two known checkpoint shapes (`SafeRun`), the mutable map presents exactly the sorted
+dictionary. -/
+theorem mutable_refines_safe {σ : Type} [Inhabited κ] [BEq κ] [BEq ν] [LawfulBEq κ] [LawfulBEq ν]
+    {C : Cfg σ κ ν} {cmp : κ → κ → Ordering} (hc : TotalPreorder cmp) (t : Tree κ ν) (hgood : GoodTree cmp t)
+    (maxPending : Nat) (ops : List (MOp κ ν)) (m' : MutMap κ ν)
+    (hsafe : SafeRun C cmp { tree := t, maxPending := maxPending } false ops)
+    (hrun : MutMap.run C cmp { tree := t, maxPending := maxPending } ops = .ok m') :
+    m'.content cmp = SortedDict.run cmp t.flatten ops :=
+  mutable_refines_partial hc (flushRefines_wf C hc) t.flatten hgood.1.sorted t hgood rfl maxPending ops m' hsafe hrun
+
+/-- **`checkpoint_revert`** (corollary): under the same hypotheses, whatever happens between a
+checkpoint and the revert — including flushes — the map is back at the checkpointed content. -/
+theorem checkpoint_revert_partial {σ : Type} [BEq κ] [BEq ν] [Inhabited κ] {C : Cfg σ κ ν} {cmp : κ → κ → Ordering}
+    {P : Tree κ ν → Prop} (hc : TotalPreorder cmp) (hf : FlushRefines C cmp P) (base : List (κ × ν))
+    (hs : Sorted cmp base) (t : Tree κ ν) (hP : P t) (ht : t.flatten = base) (maxPending : Nat)
+    (ops₁ ops₂ : List (MOp κ ν)) (m' : MutMap κ ν)
+    (hno : ∀ o ∈ ops₂, o matches .put _ _ | .del _)
+    (hsafe : SafeRun C cmp { tree := t, maxPending := maxPending } false (ops₁ ++ [.checkpoint] ++ ops₂ ++ [.revert]))
+    (hrun : MutMap.run C cmp { tree := t, maxPending := maxPending } (ops₁ ++ [.checkpoint] ++ ops₂ ++ [.revert]) = .ok m') :
+    m'.content cmp = SortedDict.run cmp base ops₁ := by
+  rw [mutable_refines_partial hc hf base hs t hP ht maxPending _ m' hsafe hrun]
+  unfold SortedDict.run
+  simp only [List.foldl_append, List.foldl_cons, List.foldl_nil, Dict.step]
+  -- puts and deletes do not touch the checkpointed content
+  have : ∀ (ops : List (MOp κ ν)) (d : Dict κ ν), (∀ o ∈ ops, o matches .put _ _ | .del _) →
+      (ops.foldl (Dict.step cmp) d).cp = d.cp := by
+    intro ops
+    induction ops with
+    | nil => intro d _; rfl
+    | cons o os ih =>
+      intro d h
+      rw [List.foldl_cons, ih _ (fun x hx => h x (by simp [hx]))]
+      have ho := h o (by simp)
+      cases o <;> simp_all [Dict.step]
+  rw [this ops₂ _ hno]
+
+/-- non-vacuity of `SafeRun`: a history with a flush between a checkpoint and its revert
+(`maxPending = 1`: the third put flushes and moves the checkpoint into the stash), then more edits
+and a fresh checkpoint — and the model's content equals the dictionary's -/
+def Witness.opsSafe : List (MOp Nat Nat) :=
+  [.put 1 10, .checkpoint, .put 2 20, .put 3 30, .revert, .put 4 40, .put 5 50, .checkpoint, .del 1, .revert]
+
+example : SafeRun Witness.C compare { tree := ⟨0, []⟩, maxPending := 1 } false Witness.opsSafe :=
+  safeRun_of_safeRunB _ _ _ _ _ (by decide)
+
+example : Witness.run 1 Witness.opsSafe = some (SortedDict.run compare [] Witness.opsSafe) := by decide
 
 theorem mutable_refines_refuted : ¬ mutable_refines_full := by
   intro h
